@@ -257,8 +257,10 @@ fn get_imsaak(
     }
 
     let mut hours = get_hours_adj_ext(&params_adj, top_astro_day, weather);
+    let mut fell_back = false;
     if let Ok(hour) = hours[&Fajr] {
         if hour.extreme {
+            fell_back = true;
             params_adj = params.clone();
             *params_adj.minutes.get_mut(&Fajr).unwrap() -= if params.intervals[&Imsaak] == 0. {
                 Params::DEF_IMSAAK_ANGLE
@@ -270,7 +272,10 @@ fn get_imsaak(
         }
     }
 
-    hours[&Fajr].map(|x| to_prayer_time(&params_adj, Fajr, x))
+    hours[&Fajr].map(|mut x| {
+        x.extreme |= fell_back;
+        to_prayer_time(&params_adj, Fajr, x)
+    })
 }
 
 fn to_prayer_time(params: &Params, prayer: Prayer, prayer_hour: PrayerHour) -> PrayerTime {
